@@ -206,3 +206,6 @@ fn once_reactor_runs_once_then_vanishes()
     kani::cover!(true, "end of harness reached");
     std::mem::forget(callback); std::mem::forget(world);
 }
+
+/// helper for harnesses of sibling modules (`ReactorMode::prepare` is private to this module)
+pub fn cleanup_handle(despawner: &AutoDespawner, sys: SystemCommand) -> ReactorHandle { ReactorMode::Cleanup.prepare(despawner, sys) }
